@@ -180,14 +180,14 @@ func (c *compiler) evalAssignExpression(node *ast.AssignExpression) (interface{}
 }
 
 func (c *compiler) evalUserFunction(node *userFunction, args []ast.Expression) (interface{}, error) {
-	if len(args) < len(node.Parameters) {
-		return nil, fmt.Errorf("too few arguments (%d for %d)", len(args), len(node.Parameters))
+	if len(args) < len(node.parameters) {
+		return nil, fmt.Errorf("too few arguments (%d for %d)", len(args), len(node.parameters))
 	}
 
 	// the arguments are evaluated in the caller's scope, before any
 	// parameter is bound
-	vals := make([]interface{}, len(node.Parameters))
-	for i := range node.Parameters {
+	vals := make([]interface{}, len(node.parameters))
+	for i := range node.parameters {
 		v, err := c.evalExpression(args[i])
 		if err != nil {
 			return nil, err
@@ -199,11 +199,11 @@ func (c *compiler) evalUserFunction(node *userFunction, args []ast.Expression) (
 	defer func() { c.ctx = octx }()
 
 	c.ctx = c.ctx.New()
-	for i, p := range node.Parameters {
+	for i, p := range node.parameters {
 		c.ctx.Set(p.Value, vals[i])
 	}
 
-	res, err := c.evalBlockStatement(node.Block)
+	res, err := c.evalBlockStatement(node.block)
 	if err != nil {
 		return nil, err
 	}
@@ -224,7 +224,7 @@ func (c *compiler) evalUserFunction(node *userFunction, args []ast.Expression) (
 func (c *compiler) evalFunctionLiteral(node *ast.FunctionLiteral) (interface{}, error) {
 	params := node.Parameters
 	block := node.Block
-	return &userFunction{Parameters: params, Block: block}, nil
+	return &userFunction{parameters: params, block: block}, nil
 }
 
 // unknownIsNil reports whether err is an unknown identifier, which the
